@@ -178,7 +178,7 @@ func RunReorgSync(p ReorgSyncPlan, res *Result) {
 		}
 	}
 	witness := func() any {
-		return map[string]any{"plan": p, "event_log_tail": w.Log.Tail(50)}
+		return map[string]any{"plan": p, "event_log_tail": w.Log.Tail(50), "event_log": w.Log.Tail(600)}
 	}
 	if err := w.StartClient(nil, ClientOpts{}); err != nil {
 		res.Inconcl("client start: " + err.Error())
